@@ -22,7 +22,17 @@ func TestParseGolden(t *testing.T) {
 		}
 		t.Logf("%s: %d nodes %d edges %d clusters", filepath.Base(f), len(g.Nodes), len(g.Edges), len(g.Clusters))
 	}
+	for _, good := range []string{
+		"// c\n/* block\n c */ digraph { a -> b; /* x */ } // end\n",
+		"# 1 \"f\"\ndigraph {\n# 2\n a; }\n",
+		`strict digraph G { graph [a=b]; node [c=d]; edge [e=f]; label="x"; a -> b [k=v, l=w; m=n]; }`,
+	} {
+		if _, err := ParseDot(good); err != nil {
+			t.Errorf("rejected %q: %v", good, err)
+		}
+	}
 	for _, bad := range []string{
+		"digraph { a; /* never closed }",
 		`digraph { a [label=<<-chan int>>]; }`,
 		`digraph { a [label=<x<BR />y & z>]; }`,
 		`digraph { a -> ; }`,
